@@ -20,6 +20,7 @@ type Config struct {
 	Clients int `json:"clients,omitempty"`
 	// C13: window of operations whose lower-layer calls are fault-enumerated
 	C13 *c13Config `json:"c13,omitempty"`
+	C03 *c03Config `json:"c03,omitempty"`
 }
 
 type genState struct {
